@@ -127,11 +127,8 @@ fn write_node(mut_repo: &mut MutableRepo, commits: &[Commit], parents: &[usize],
 }
 
 fn build(h: &Hist) -> Built {
-    let t0 = std::time::Instant::now();
     let settings = settings();
-    let t1 = t0.elapsed();
     let test_repo = TestRepo::init_with_settings(&settings);
-    if std::env::var("CEX_TIMING").is_ok() { eprintln!("settings {:?} init {:?}", t1, t0.elapsed()); }
     let mut repo = test_repo.repo.clone();
     let mut commits = vec![repo.store().root_commit()];
     let mut g = 0;
